@@ -6,7 +6,7 @@ def run(ctx):
     # every combinator and reducer x every input over {1,2,3} up to length L x every parameter /
     # predicate table / equivalence, in the iterator, stream and xslices families; judged by
     # SeqFuns.tla (function, agreement of the families, laziness bound, sticky end)
-    sessions(ctx, "faultfree", "faultfree", maxlen=ctx.pick(4, 5))
-    sessions(ctx, "random", "random", n=ctx.pick(1500, 20000))
+    sessions(ctx, "faultfree", "faultfree", maxlen=ctx.pick(4, 6))
+    sessions(ctx, "random", "random", n=ctx.pick(1500, 150000))
     ctx.assumptions += ["laziness counts source items, not End probes; same() is an equivalence (as documented)",
                         "Chan/Counter/Repeat/Empty sources: see C19 vectors; here Slice/FromIterator/scripted sources"]
